@@ -23,7 +23,7 @@ from .clock import SimClock, TimeShim
 from .device import Device, expand
 from .lib import load
 from .tape import h64
-from .threads import SimRLock, HarnessError, Sched, SimLock
+from .threads import SimCondition, SimRLock, HarnessError, Sched, SimLock
 from .transport import JumpWaiter, Link, SimAbort, SimHang, make_sim_transport, make_sim_transport_async
 
 KEYDIR = os.path.join(os.path.dirname(os.path.dirname(os.path.abspath(__file__))), 'fixtures', 'keys')
@@ -53,6 +53,14 @@ def signer(idx, kind):
         elif kind == 'pycryptodome':
             from adb_shell.auth.sign_pycryptodome import PycryptodomeAuthSigner
             s = PycryptodomeAuthSigner(path)
+        elif kind == 'pythonrsa_u':
+            # the same key, its .pub file carrying a non-ASCII comment (user@host of the machine that made it): GetPublicKey() is a str
+            from adb_shell.auth.sign_pythonrsa import PythonRSASigner
+            with open(path + '.pub') as f:
+                pub = f.read().split(' ')[0] + ' j\u00fcrgen@b\u00fcro-pc'
+            with open(path) as f:
+                priv = f.read()
+            s = PythonRSASigner(pub=pub, priv=priv)
         else:
             from adb_shell.auth.sign_pythonrsa import PythonRSASigner
             s = PythonRSASigner.FromRSAKeyPath(path)
@@ -283,6 +291,9 @@ class OpRunner(object):
         rec['pk1'] = len(run.device.host_pkts)
         rec['avail1'] = bool(self.dev.available)
         rec['boundary'] = run.device.at_message_boundary()
+        if op['op'] in ('connect', 't_connect') and getattr(run, 'usb', None) is not None:
+            from . import fakeusb1
+            fakeusb1.CALLS.append(('connect-result', rec['ok']))     # lets the USB oracle tell use after a *failed* connect (the caller's business) from the rest
         return rec
 
     def _do(self, op, rec):
@@ -405,6 +416,9 @@ class OpRunner(object):
             p = os.path.join(tmpdir(), op.get('local_name', 'pulled.bin'))
             if os.path.exists(p):
                 os.unlink(p)
+            if op.get('prefill'):
+                with open(p, 'wb') as f:
+                    f.write(b'OLD-CONTENT-' * (int(op['prefill']) // 12 + 1))      # the destination exists already and may be longer than what is pulled
             rec['dest_path'] = p
             lp = p
             if op.get('dest') == 'pathlib':
@@ -621,6 +635,9 @@ class OpRunner(object):
             p = os.path.join(tmpdir(), op.get('local_name', 'pulled.bin'))
             if os.path.exists(p):
                 os.unlink(p)
+            if op.get('prefill'):
+                with open(p, 'wb') as f:
+                    f.write(b'OLD-CONTENT-' * (int(op['prefill']) // 12 + 1))
             rec['dest_path'] = p
             try:
                 lp = p
@@ -888,6 +905,7 @@ def _execute_sync(scn, tape, L):
     saved = _patch_time(['adb_device'], run.clock)
     saved_lock = adb_device.Lock
     saved_rlock = None
+    saved_cond = None
     sched = None
     try:
         if multi:
@@ -914,6 +932,9 @@ def _execute_sync(scn, tape, L):
                 # not on the pinned tree; a lock of any kind that the library creates must be a cooperative one, or the baton is lost
                 saved_rlock = adb_device.RLock
                 adb_device.RLock = mk_rlock
+            if hasattr(adb_device, 'Condition'):
+                saved_cond = adb_device.Condition
+                adb_device.Condition = SimCondition
         else:
             waiter = JumpWaiter(run.clock)
             counter = [0]
@@ -929,6 +950,9 @@ def _execute_sync(scn, tape, L):
             if hasattr(adb_device, 'RLock'):
                 saved_rlock = adb_device.RLock
                 adb_device.RLock = mk_rlock
+            if hasattr(adb_device, 'Condition'):
+                saved_cond = adb_device.Condition
+                adb_device.Condition = SimCondition
         transport, extra = _mk_transport_sync(scn, run, waiter)
         run.transport = transport
         o = scn.get('object', {})
@@ -1009,6 +1033,8 @@ def _execute_sync(scn, tape, L):
         adb_device.Lock = saved_lock
         if saved_rlock is not None:
             adb_device.RLock = saved_rlock
+        if saved_cond is not None:
+            adb_device.Condition = saved_cond
         _unpatch(saved)
         L['hidden_helpers'].os = os
         if scn.get('transport') == 'tcp':
